@@ -8,7 +8,7 @@ export GOFLAGS=-mod=mod GOPROXY=off GOSUMDB=off GOTOOLCHAIN=local; unset GOWORK
 if [ ! -x bin/neutralfuzz ] || [ -n "$(find tools/neutralfuzz -newer bin/neutralfuzz -name '*.go' | head -1)" ]; then
   (cd tools/neutralfuzz && go build -o ../../bin/neutralfuzz .) || exit 2
 fi
-T="rename invert swapeq negform demorgan parens constextract hoistcond guard2else switch2if if2switch retlocal varform reorder splitinit mergeinit hoistarg ret2else splitand lencmp incr boolret predfunc rangeidx elsenest swapand kvorder caseorder inlinelocal renamefile extractblock countloop"
+T="rename invert swapeq negform demorgan parens constextract hoistcond guard2else switch2if if2switch retlocal varform reorder splitinit mergeinit hoistarg ret2else splitand lencmp incr boolret predfunc rangeidx elsenest swapand kvorder caseorder inlinelocal renamefile extractblock countloop flag2counter labelcontinue joinvar"
 for t in $T; do for p in ./internal/wire ./cmd/wire; do echo "$t $p"; done; done |
   xargs -P 6 -L 1 sh -c './tools/neutralfuzz.sh $0 $1 "*" '"$1" | sort > /tmp/nf-all.$$
 cat /tmp/nf-all.$$
